@@ -1,4 +1,5 @@
 import CM.Ops.Core
+import CM.Ops.Recognize
 namespace CM.Ops
 
 def echoOp : Op
@@ -11,6 +12,6 @@ def treeOp : Op
     | none => bad
   | _ => bad
 
-def allOps : List (String × Op) := [("echo", echoOp), ("tree", treeOp)]
+def allOps : List (String × Op) := [("echo", echoOp), ("tree", treeOp)] ++ recognizeOps
 
 end CM.Ops
